@@ -79,7 +79,9 @@ class SimpleRateLimiter(AbstractRateLimiter):
     def _add_new_tokens(self) -> None:
         now: float = time.monotonic()
         time_since_update: float = now - self.updated_at
-        self.effective_send_rate = self.messages_delivered / time_since_update
+        if time_since_update > 0:
+            # The clock may return the same reading twice (coarse timers)
+            self.effective_send_rate = self.messages_delivered / time_since_update
         new_tokens: float = time_since_update * self.send_rate
         if new_tokens > 1.0:
             self.tokens = min(self.tokens + new_tokens, self.max_tokens)
